@@ -87,12 +87,12 @@ def windows_adaptive(y, a):
             ar.append(a // 2)
         else:
             g = r / l
-            L = min(max(g * a / (1 + g), 1), a)
-            R = min(max(Fr(a) / (1 + g), 1), a)
+            L = min(max(g * a / (1 + g), 1), a - 1)
+            R = min(max(Fr(a) / (1 + g), 1), a - 1)
             gf = abs(float(Y(k + 1)) - float(Y(k))) / abs(float(Y(k)) - float(Y(k - 1)))
-            Lf = [min(max(v, 1), a) for v in (gf * a / (1 + gf), a * gf / (1 + gf), a / (1 + 1 / gf),
-                                               a - a / (1 + gf))]
-            Rf = [min(max(v, 1), a) for v in (a / (1 + gf), a - gf * a / (1 + gf), a * (1 / (1 + gf)))]
+            Lf = [min(max(v, 1), a - 1) for v in (gf * a / (1 + gf), a * gf / (1 + gf), a / (1 + 1 / gf),
+                                                   a - a / (1 + gf))]
+            Rf = [min(max(v, 1), a - 1) for v in (a / (1 + gf), a - gf * a / (1 + gf), a * (1 / (1 + gf)))]
             if not (_trunc_consistent(L, Lf) and _trunc_consistent(R, Rf)):
                 knife = True
             al.append(int(L))
